@@ -155,12 +155,12 @@ def stage_mech_oneiter(chk):
 
 def check_C01(chk):
     bins = vlib.build_harness(["dbg-native"])
-    stage_bvref(chk, 11 if chk.thorough else 9)
-    stage_mech_plainbv(chk, 13 if chk.thorough else 11)
+    stage_bvref(chk, 12 if chk.thorough else 9)
+    stage_mech_plainbv(chk, 14 if chk.thorough else 11)
     if chk.thorough:
         stage_layout_drift(chk, bins)
-    stage_gen_bv(chk, bins, ["plain"], 11 if chk.thorough else 10, FAMILY_THOROUGH if chk.thorough else FAMILY_QUICK)
-    total = stage_trace(chk, bins, "plain", "TraceBV", invariants=("ObjWellFormed",), seeds=3 if chk.thorough else 1)
+    stage_gen_bv(chk, bins, ["plain"], 12 if chk.thorough else 10, FAMILY_THOROUGH if chk.thorough else FAMILY_QUICK)
+    total = stage_trace(chk, bins, "plain", "TraceBV", invariants=("ObjWellFormed",), seeds=6 if chk.thorough else 1)
     chk.cov["regimes"] = total
     if not chk.violations and (total.get("long_one_hits", 0) == 0 or total.get("long_zero_hits", 0) == 0):
         raise ToolError("vacuous: no validated select query inside a long superblock (ones=%s zeros=%s)" % (
@@ -178,8 +178,8 @@ def check_C02(chk):
     bins = vlib.build_harness(["dbg-native"])
     stage_bvref(chk, 9)
     stage_mech_eliasfano(chk)
-    stage_gen_bv(chk, bins, ["sparse"], 11 if chk.thorough else 10, FAMILY_THOROUGH if chk.thorough else FAMILY_QUICK)
-    total = stage_trace(chk, bins, "sparse", "TraceBV", invariants=("ObjWellFormed",), seeds=2 if chk.thorough else 1)
+    stage_gen_bv(chk, bins, ["sparse"], 12 if chk.thorough else 10, FAMILY_THOROUGH if chk.thorough else FAMILY_QUICK)
+    total = stage_trace(chk, bins, "sparse", "TraceBV", invariants=("ObjWellFormed",), seeds=5 if chk.thorough else 1)
     stage_bvref64(chk)
     total64 = stage_trace(chk, bins, "huge", "TraceBV64", extra_args=("--only", "sparse"))
     for k, v in total64.get("widths", {}).items():
@@ -229,13 +229,13 @@ def check_C03(chk):
     bins = vlib.build_harness(["dbg-native"])
     stage_bvref(chk, 9)
     stage_mech_rle(chk)
-    stage_gen_bv(chk, bins, ["rl"], 11 if chk.thorough else 10, FAMILY_THOROUGH if chk.thorough else FAMILY_QUICK)
+    stage_gen_bv(chk, bins, ["rl"], 12 if chk.thorough else 10, FAMILY_THOROUGH if chk.thorough else FAMILY_QUICK)
     if chk.thorough:
         stage_gen_rl(chk, bins, "{1, 2, 7, 8, 9, 63, 64, 65, 511, 512}", 2, "{0, 1, 64}")
         stage_gen_rl(chk, bins, "{1, 7, 8, 64, 512}", 3, "{0, 9}")
     else:
         stage_gen_rl(chk, bins, "{1, 2, 7, 8, 9, 64, 512}", 2, "{0, 1}")
-    stage_trace(chk, bins, "rl", "TraceBV", invariants=("ObjWellFormed",), seeds=2 if chk.thorough else 1)
+    stage_trace(chk, bins, "rl", "TraceBV", invariants=("ObjWellFormed",), seeds=5 if chk.thorough else 1)
     stage_bvref64(chk)
     stage_trace(chk, bins, "huge", "TraceBV64", extra_args=("--only", "rl"))
     return chk.finish(rule="cases = (length, maximal runs, query, argument) on the run-length vector built by 6 routes (per run, bit at a "
@@ -287,14 +287,14 @@ def check_C05(chk):
         stage_gen_vec(chk, bins, "int", "{1, 7, 31, 32, 33, 63, 64}", 2, 4)
         stage_gen_vec(chk, bins, "int", "{7, 33, 64}", 3, 3, label="d3")
         stage_gen_vec(chk, bins, "raw", "{}", 2, 3)
-        stage_gen_vec(chk, bins, "int", "{1, 7, 31, 32, 33, 63, 64}", 40, 6, simulate="num=1500", label="sim")
-        stage_gen_vec(chk, bins, "raw", "{}", 40, 5, simulate="num=1500", label="sim")
+        stage_gen_vec(chk, bins, "int", "{1, 7, 31, 32, 33, 63, 64}", 40, 6, simulate="num=4000", label="sim")
+        stage_gen_vec(chk, bins, "raw", "{}", 40, 5, simulate="num=4000", label="sim")
     else:
         stage_gen_vec(chk, bins, "int", "{1, 7, 33, 64}", 2, 4)
         stage_gen_vec(chk, bins, "raw", "{}", 2, 3)
         stage_gen_vec(chk, bins, "int", "{1, 7, 31, 32, 33, 63, 64}", 30, 6, simulate="num=80", label="sim")
         stage_gen_vec(chk, bins, "raw", "{}", 30, 5, simulate="num=80", label="sim")
-    stage_trace(chk, bins, "vec", "TraceVec", invariants=("StateOK",), seeds=2 if chk.thorough else 1)
+    stage_trace(chk, bins, "vec", "TraceVec", invariants=("StateOK",), seeds=4 if chk.thorough else 1)
     return chk.finish(rule="cases = call histories of IntVector / RawVector; after every call the result, the projected content, equality and "
                            "byte-identity with a canonically built vector and count_ones are compared with the Layer A state machine; "
                            "distinct = distinct history prefixes")
@@ -324,9 +324,9 @@ def check_C04(chk):
         raise ToolError("self-test failed: mech/WM with the unchecked subtraction in map_up_one (F5) does not violate Refines")
     chk.cov["stages"].append({"stage": "self-test: mech/WM with the unchecked subtraction of F5 violates Refines", "ok": True})
     if chk.thorough:
-        stage_gen_wm(chk, bins, "{0, 1, 2, 3}", 6, label="a4")
+        stage_gen_wm(chk, bins, "{0, 1, 2, 3}", 7, label="a4")
         stage_gen_wm(chk, bins, "{0, 1, 2, 3, 4, 5, 6, 7}", 4, label="a8")
-        stage_gen_wm(chk, bins, "{0, 1}", 9, label="a2")
+        stage_gen_wm(chk, bins, "{0, 1}", 11, label="a2")
         for k in (1, 4, 7, 8, 15, 16):
             stage_gen_wm(chk, bins, "{0, 1, %d, %d, %d}" % (2 ** k - 1, 2 ** k, 2 ** k + 1), 3, label="p%d" % k)
     else:
@@ -336,7 +336,7 @@ def check_C04(chk):
         for k in (8, 16):
             stage_gen_wm(chk, bins, "{0, 1, %d, %d, %d}" % (2 ** k - 1, 2 ** k, 2 ** k + 1), 2, label="p%d" % k)
     chk.cov["exhaustive"] = True
-    stage_trace(chk, bins, "wm", "TraceWM", seeds=2 if chk.thorough else 1)
+    stage_trace(chk, bins, "wm", "TraceWM", seeds=4 if chk.thorough else 1)
     return chk.finish(rule="cases = (vector, query, index/rank argument, value argument) on WaveletMatrix and WMCore built from each of the five "
                            "item types; TLC-generated for all vectors over small and sparse alphabets; recorded for skewed/uniform vectors of "
                            "width 1..16; distinct = distinct (vector, query, argument, value)")
@@ -382,7 +382,7 @@ def check_C10(chk):
     if out:
         chk.add_replay(out, st, behaviours=out.get("evaluations", 0))
     chk.cov["exhaustive"] = True
-    stage_trace(chk, bins, "iter", "TraceIter", invariants=("Window",), seeds=2 if chk.thorough else 1)
+    stage_trace(chk, bins, "iter", "TraceIter", invariants=("Window",), seeds=5 if chk.thorough else 1)
     return chk.finish(rule="cases = (structure content, iterator kind, start point, call history); histories are the transition cover of the "
                            "Layer A window machine (every call from every reachable window, reached by a shortest history, then drained); "
                            "distinct = distinct (content, iterator, start, history) with a non-empty reference sequence")
@@ -437,8 +437,8 @@ def gen_bv_sets(chk, nbits, family):
 
 def check_C09(chk):
     bins = vlib.build_harness(["dbg-native", "rel-native"])
-    nbits = 8 if chk.thorough else 6
-    p1, p2, p3 = gen_bv_sets(chk, nbits, FAMILY_QUICK)
+    nbits = 9 if chk.thorough else 6
+    p1, p2, p3 = gen_bv_sets(chk, nbits, FAMILY_THOROUGH if chk.thorough else FAMILY_QUICK)
     hist = gen_iter_histories(chk, nbits + 1)
     wmc, rw = vlib.generate_cases(chk.work, "GenWM_total", "GenWM", cfg_consts({"Alpha": "{0, 1, 2, 3}", "MaxLen": 4 if chk.thorough else 3}) + " ExtraVals <- ExtraDef\n" + GEN_TAIL,
                                   defs="ExtraDef == {-1, 100}")
